@@ -160,6 +160,13 @@ func transferMenu(w *world.World, o menuOpts) []world.Action {
 				lists = append(lists, []tnq{x, y})
 			}
 		}
+		// the same entry twice with different quantities (needs a holding of at least 3)
+		for _, x := range ones {
+			if h := held(w, from, string(x.Tok)+spec.NonceSuffix(uint64(x.Nonce))); h >= 3 {
+				two := tnq{Tok: x.Tok, Nonce: x.Nonce, Q: 2}
+				lists = append(lists, []tnq{x, two}, []tnq{two, x})
+			}
+		}
 		// pairs with different quantities (an entry of quantity 1 next to an entry of quantity > 1)
 		for _, x := range ones {
 			for _, y := range singles {
